@@ -1329,7 +1329,7 @@ def c10(ix: Index) -> None:
                 zero_evs.add(ev)
                 ix.C['c10_handlers_of_nonpositive_timeout_events'] += 1
                 res = next((q for q in fin.get(ev, {}).get('results', []) if q['hid'] == f"B{bus}.h{hi}"), None)
-                done = any(p['e'] is not None for p in ix.procs_by.get((ev, bus), []))
+                done = any(p['e'] is not None and p['e'].get('exc') is None for p in ix.procs_by.get((ev, bus), []))  # (processing that ran to its end; an abandoned one is F5's business below)
                 if ix.sane and done and (res is None or res['status'] != 'error' or res['err'] not in ('TimeoutError', 'CancelledError')):
                     ix.v('C10', 'result-not-timeout-error', None, ev=ev, h=hi, result=res, timeout=ix.mk[ev]['timeout'])
     # likewise a @retry-decorated handler whose clock ran out while it was still waiting for its semaphore slot: no body, the event
@@ -1341,7 +1341,7 @@ def c10(ix: Index) -> None:
             continue
         zero_evs.add(r['ev'])
         res = next((q for q in fin.get(r['ev'], {}).get('results', []) if q['hid'] == f"B{r['bus']}.h{r['h']}"), None)
-        done = any(p['e'] is not None for p in ix.procs_by.get((r['ev'], r['bus']), []))
+        done = any(p['e'] is not None and p['e'].get('exc') is None for p in ix.procs_by.get((r['ev'], r['bus']), []))
         if ix.sane and done and (res is None or res['status'] != 'error' or res['err'] not in ('TimeoutError', 'CancelledError')):
             ix.v('C10', 'result-not-timeout-error', None, ev=r['ev'], h=r['h'], result=res, waited_for_slot=True)
     if not fired and not zero_evs:
